@@ -408,15 +408,15 @@ func (v *Verifier) evalIndex(s *State, x *ast.IndexExpr) *Term {
 }
 
 func (v *Verifier) strLen(str *Term) *Term {
-	v.d.declareFun("str.len", []string{SStr}, SInt)
-	return mk("str.len", SInt, str)
+	v.d.declareFun("gstr.len", []string{SStr}, SInt)
+	return mk("gstr.len", SInt, str)
 }
 
 func (v *Verifier) byteSort() string { return v.intSort(8) }
 
 func (v *Verifier) strAt(s *State, str, i *Term) *Term {
-	v.d.declareFun("str.bytes", []string{SStr}, SArr(SInt, v.byteSort()))
-	val := Select(mk("str.bytes", SArr(SInt, v.byteSort()), str), i)
+	v.d.declareFun("gstr.bytes", []string{SStr}, SArr(SInt, v.byteSort()))
+	val := Select(mk("gstr.bytes", SArr(SInt, v.byteSort()), str), i)
 	if v.mode != "bv" && v.inQuant == 0 {
 		s.assume(And(Le(IntLit(0), val), Le(val, IntLit(255))))
 	}
@@ -461,8 +461,8 @@ func (v *Verifier) evalSliceExpr(s *State, x *ast.SliceExpr) *Term {
 				hi = v.strLen(str)
 			}
 			v.oblige(s, "nopanic", "slice", And(Le(IntLit(0), lo), Le(lo, hi), Le(hi, v.strLen(str))), x.Pos(), "string slice bounds")
-			v.d.declareFun("str.sub", []string{SStr, SInt, SInt}, SStr)
-			r := mk("str.sub", SStr, str, lo, hi)
+			v.d.declareFun("gstr.sub", []string{SStr, SInt, SInt}, SStr)
+			r := mk("gstr.sub", SStr, str, lo, hi)
 			s.assume(Eq(v.strLen(r), Sub(hi, lo)))
 			return r
 		}
@@ -546,8 +546,8 @@ func (v *Verifier) evalBinary(s *State, x *ast.BinaryExpr) *Term {
 		return v.shift(s, x.Op, a, b, v.typeOf(x), rt, x.Pos())
 	case token.ADD:
 		if isString(lt) {
-			v.d.declareFun("str.cat", []string{SStr, SStr}, SStr)
-			r := mk("str.cat", SStr, a, b)
+			v.d.declareFun("gstr.cat", []string{SStr, SStr}, SStr)
+			r := mk("gstr.cat", SStr, a, b)
 			s.assume(Eq(v.strLen(r), Add(v.strLen(a), v.strLen(b))))
 			return r
 		}
@@ -1039,8 +1039,8 @@ func (v *Verifier) strToBytes(s *State, str *Term) *Term {
 	s.assume(Le(n, IntLitB(maxLen)))
 	base := v.allocRef(s)
 	name, h, es := v.sliceHeap(s, types.Typ[types.Byte])
-	v.d.declareFun("str.bytes", []string{SStr}, SArr(SInt, es))
-	s.heaps[name] = Store(h, base, mk("str.bytes", SArr(SInt, es), str))
+	v.d.declareFun("gstr.bytes", []string{SStr}, SArr(SInt, es))
+	s.heaps[name] = Store(h, base, mk("gstr.bytes", SArr(SInt, es), str))
 	return MkSlice(base, IntLit(0), n, n)
 }
 
@@ -1048,11 +1048,11 @@ func (v *Verifier) strToBytes(s *State, str *Term) *Term {
 func (v *Verifier) bytesToStr(s *State, sl *Term) *Term {
 	_, h, es := v.sliceHeap(s, types.Typ[types.Byte])
 	w := v.window(s, v.hsel(s, h, SBase(sl)), SOff(sl), SLen(sl))
-	v.d.declareFun("str.of", []string{SArr(SInt, es), SInt}, SStr)
-	r := mk("str.of", SStr, w, SLen(sl))
+	v.d.declareFun("gstr.of", []string{SArr(SInt, es), SInt}, SStr)
+	r := mk("gstr.of", SStr, w, SLen(sl))
 	s.assume(Eq(v.strLen(r), SLen(sl)))
-	v.d.declareFun("str.bytes", []string{SStr}, SArr(SInt, es))
-	s.assume(Eq(mk("str.bytes", SArr(SInt, es), r), w))
+	v.d.declareFun("gstr.bytes", []string{SStr}, SArr(SInt, es))
+	s.assume(Eq(mk("gstr.bytes", SArr(SInt, es), r), w))
 	return r
 }
 
